@@ -40,6 +40,7 @@ def emit(**kw):
 
 
 _final = [None]
+_opsfinal = [lambda: 0]
 
 
 def _from_run(func):
@@ -64,7 +65,7 @@ def _unregister(func):
     return r
 
 
-_areg(lambda: emit(ev="lines-final", n=_final[0]()))  # registered first, so it runs last
+_areg(lambda: emit(ev="lines-final", n=_final[0](), ops=_opsfinal[0]()))  # registered first, so it runs last
 atexit.register, atexit.unregister = _register, _unregister
 
 _sigsig = signal.signal
@@ -184,33 +185,60 @@ def _stack(frame):
     return names
 
 
+OPJ = int(os.environ.get("C10_OPJ", "0") or 0)  # > 0: deliver the signal at the OPJ-th bytecode of run.py executed after the K-th line event
+_ops, _armed = [0], [False]
+
+
+def _kill(frame, **kw):
+    # where is the *main flow* of TaskRunner.run (the outermost run.py frame named `run` of the class)?
+    main_line, f = None, frame
+    while f is not None:
+        if f.f_code.co_filename == target and RUNFN and RUNFN[0] <= f.f_lineno <= RUNFN[1] \
+                and f.f_code.co_name == "run" and "self" in f.f_locals:
+            main_line = f.f_lineno
+        f = f.f_back
+    in_try = in_handler = None
+    if main_line is not None and TRY is not None:
+        in_try = TRY[0] <= main_line <= TRY[1]
+        in_handler = any(lo <= main_line <= hi for lo, hi in HANDLERS)
+    r = _runner_of(frame)
+    emit(ev="kill", k=K, sig=SIG, func=frame.f_code.co_name, line=frame.f_lineno, stack=_stack(frame),
+         main_line=main_line, in_try=in_try, in_handler=in_handler,
+         cleaned=getattr(r, "cleaned", None), started=getattr(r, "started", None),
+         has_runner=r is not None, **kw)
+    os.kill(os.getpid(), SIG)
+
+
 def tracer(frame, event, arg):
     if frame.f_code.co_filename != target:
         return None
+    if _armed[0]:
+        frame.f_trace_opcodes = True
     if event == "line":
         count[0] += 1
         if count[0] == K:
-            # where is the *main flow* of TaskRunner.run (the outermost run.py frame named `run` of the class)?
-            main_line, f = None, frame
-            while f is not None:
-                if f.f_code.co_filename == target and RUNFN and RUNFN[0] <= f.f_lineno <= RUNFN[1] \
-                        and f.f_code.co_name == "run" and "self" in f.f_locals:
-                    main_line = f.f_lineno
-                f = f.f_back
-            in_try = in_handler = None
-            if main_line is not None and TRY is not None:
-                in_try = TRY[0] <= main_line <= TRY[1]
-                in_handler = any(lo <= main_line <= hi for lo, hi in HANDLERS)
-            r = _runner_of(frame)
-            emit(ev="kill", k=K, sig=SIG, func=frame.f_code.co_name, line=frame.f_lineno, stack=_stack(frame),
-                 main_line=main_line, in_try=in_try, in_handler=in_handler,
-                 cleaned=getattr(r, "cleaned", None), started=getattr(r, "started", None),
-                 has_runner=r is not None)
-            os.kill(os.getpid(), SIG)
+            if OPJ > 0:
+                # bytecode granularity from here on: every frame of run.py on the stack and every later one
+                _armed[0] = True
+                f = frame
+                while f is not None:
+                    if f.f_code.co_filename == target:
+                        f.f_trace_opcodes = True
+                    f = f.f_back
+                sys.settrace(tracer)  # CPython 3.12 decides at settrace time whether instruction events are delivered at all
+            else:
+                _kill(frame)
+    elif event == "opcode" and _armed[0]:
+        _ops[0] += 1
+        if _ops[0] == OPJ:
+            _kill(frame, j=OPJ, lasti=frame.f_lasti)
     return tracer
 
 
 _final[0] = lambda: count[0]
+_opsfinal[0] = lambda: _ops[0]
+if OPJ > 0:
+    sys._getframe().f_trace_opcodes = True  # (same reason: the interpreter-wide switch must be on when settrace is called)
 sys.settrace(tracer)
 sys.argv = [script]
 import runpy  # noqa: E402
